@@ -370,6 +370,30 @@ func c06Writer(c *fw.Ctx) {
 					return
 				}
 			}
+			// the slow subscriber goes away with deliveries still unacknowledged: after the next
+			// expiry sweeps every identifier must be back in the pool
+			for i := 0; i < 6; i++ {
+				total++
+				pub.Publish("c06/t", []byte(fmt.Sprintf("w%d-%d", r, total)), 1, false, kit.DefaultWait)
+			}
+			time.Sleep(150 * time.Millisecond)
+			sub.Close()
+			if !sessionGone(n, "slow", 10*time.Second) {
+				c.Violation("writer:session-not-removed", fmt.Sprintf("writer scenario %d: the closed subscriber is still registered after 10 s", r), nil)
+				return
+			}
+			far := time.Now()
+			for i := 0; i < 3; i++ {
+				far = far.Add(time.Hour)
+				n.Ack.Expire(far)
+			}
+			free := wasp.VerifPoolFree(wasp.VerifWriterPool(n.Writer))
+			if fs := c06FreeSet(free, 1, 8); fs == nil || len(fs) != 8 {
+				c.Violation("writer:identifiers-leaked-after-session-end", fmt.Sprintf("writer scenario %d (subscription QoS %d): the only subscriber is gone and three expiry sweeps have run, yet the pool's free intervals are %v instead of the whole range [1,8]", r, subQos, free),
+					map[string]interface{}{"scenario": r, "subscription_qos": subQos, "free_intervals": fmt.Sprint(free)})
+				return
+			}
+			c.Observe("writer_session_end_leak_checks", 1)
 			c.Case(fmt.Sprintf("writer|%d", r), true)
 			c.Observe("writer_deliveries_seen", len(seenTags))
 			c.Observe("writer_publishes", total)
